@@ -40,11 +40,22 @@ struct Scenario {
     script: Vec<(usize, usize, bool)>,
     frames: usize,
     play_at: usize,
+    /// the tape is inserted with the autoload snapshot (LOAD "" already typed) and fast loading enabled
+    load: bool,
 }
 
 fn scenario(r: &mut Rng, k: u64, frames: usize) -> Scenario {
     let m128 = k % 2 == 1;
-    let blocks = vec![good_block(0x00, &r.bytes(17)), good_block(0xFF, &r.bytes(60))];
+    let load = k % 4 >= 2;
+    let blocks = if load {
+        // a BASIC program header the ROM accepts, its body, and a second pair it goes on to
+        let mut h = vec![0u8];
+        h.extend(b"verif     ");
+        h.extend([60, 0, 0, 0x80, 60, 0]);
+        vec![good_block(0x00, &h), good_block(0xFF, &r.bytes(60)), good_block(0x00, &r.bytes(17)), good_block(0xFF, &r.bytes(40))]
+    } else {
+        vec![good_block(0x00, &r.bytes(17)), good_block(0xFF, &r.bytes(60))]
+    };
     // keys at frames that are multiples of 4 so that every driving can cut there
     let mut script = vec![];
     let mut f = 8 + 4 * r.below(6) as usize;
@@ -54,7 +65,10 @@ fn scenario(r: &mut Rng, k: u64, frames: usize) -> Scenario {
         script.push((f + 4, key, false));
         f += 4 * (2 + r.below(8) as usize);
     }
-    Scenario { m128, tape: tap_bytes(&blocks), script, frames, play_at: 4 * (1 + r.below(10) as usize) }
+    // load scenarios: the tape either stays stopped until late (the ROM's request is served by the fast-load trap) or
+    // plays from the start (the ROM loads in real time)
+    let play_at = if load { if k % 8 >= 4 { 0 } else { 4 * (10 + r.below(10) as usize) } } else { 4 * (1 + r.below(10) as usize) };
+    Scenario { m128, tape: tap_bytes(&blocks), script, frames, play_at, load }
 }
 
 fn build(s: &Scenario, asset: &str, sound: bool) -> Emu {
@@ -62,6 +76,8 @@ fn build(s: &Scenario, asset: &str, sound: bool) -> Emu {
     cfg.sound = sound;
     cfg.ay = true;
     cfg.kempston = true;
+    cfg.autoload = s.load;
+    cfg.fastload = s.load;
     let mut emu = cfg.build();
     let a: DynAsset = match asset {
         "mem" => DynAsset::mem(s.tape.clone()),
@@ -131,9 +147,10 @@ fn drive(s: &Scenario, driving: &str, r: &mut Rng) -> (Vec<(usize, u64)>, u64, u
                 assert!(info.stop_reason == EmulationStopReason::Timeout);
                 1
             }
-            "bp" => {
-                // a breakpoint every few instructions; resume until the frame is reported complete
-                emu.set_debug_interface(VDebug::Every { k: 1 + r.below(400), n: 0 });
+            "bp" | "bp1" => {
+                // a breakpoint every few instructions (bp1: on every instruction, so that a stop coincides with every
+                // other per-instruction event); resume until the frame is reported complete
+                emu.set_debug_interface(VDebug::Every { k: if driving == "bp1" { 1 } else { 1 + r.below(400) }, n: 0 });
                 emu.set_speed(EmulationMode::FrameCount(1));
                 let mut calls = 0u64;
                 loop {
@@ -182,14 +199,15 @@ pub fn run(args: &Args) {
     let frames = args.num("frames", 100) as usize;
     let mut r = Rng::new(seed ^ 0xC16);
     let split = |d: u64| -> Value { json!([(d & 0x3FFF_FFFF) as u32, ((d >> 30) & 0x3FFF_FFFF) as u32]) };
-    for k in 0..scenarios {
+    let base = args.num("base", 0);
+    for k in base..base + scenarios {
         let s = scenario(&mut r, k, frames);
-        for driving in ["one", "one", "n", "n", "max1", "bp", "bp", "soundoff", "nodrain", "chunk1", "chunk7", "file", "gzip"] {
+        for driving in ["one", "one", "n", "n", "max1", "bp", "bp", "bp1", "soundoff", "nodrain", "chunk1", "chunk7", "file", "gzip"] {
             if std::env::var("VH_DEBUG").is_ok() { eprintln!("scenario {k} driving {driving}"); }
             let (d, audio, audio_n, stuck) = drive(&s, driving, &mut r);
             let digests: Vec<Value> = d.iter().map(|(f, h)| json!([f, split(*h)])).collect();
             // audio is comparable between drivings that drain after every single frame
-            let audio_cmp = matches!(driving, "one" | "max1" | "bp" | "chunk1" | "chunk7" | "file" | "gzip");
+            let audio_cmp = matches!(driving, "one" | "max1" | "bp" | "bp1" | "chunk1" | "chunk7" | "file" | "gzip");
             out.ev(json!({"ev":"drun","scenario":k,"driving":driving,"digests":digests,
                           "audio": if audio_cmp { split(audio) } else { json!([]) }, "audio_n": audio_n, "stuck": stuck}));
         }
